@@ -2,11 +2,13 @@ module verif/harness
 
 go 1.26.0
 
-require go.sia.tech/core v0.0.0
+require (
+	go.sia.tech/core v0.0.0
+	golang.org/x/crypto v0.55.0
+)
 
 require (
 	go.sia.tech/mux v1.5.3 // indirect
-	golang.org/x/crypto v0.55.0 // indirect
 	golang.org/x/sys v0.47.0 // indirect
 	lukechampine.com/frand v1.5.1 // indirect
 )
